@@ -125,8 +125,8 @@ class AdversarialSource(object):
 class C15(Check):
     prop = "C15"
     quick_runs = 240
-    thorough_runs = 8000
-    run_wall = 60.0
+    thorough_runs = 3000
+    run_wall = 600.0
     rule = ("one run = one creation history (generic/typed requests, answers, explicit-header objects) "
             "executed by 1..4 simulator threads under a seeded schedule with a simulator-owned os.urandom "
             "(honest / low-entropy / constant / cycling / echo / boundary); distinct = distinct schedule "
